@@ -211,7 +211,7 @@ func init() {
 	})
 	register(&PropSpec{
 		ID: "C06",
-		Explanation: "Decided: R-FORWARDALL - the signal forwarder leaves its loop only on a closed channel, cancellation or a failed write. Decided R-STARTGATE - a run's registration and the writing of its work start lie in one section read-locked by an RWMutex that Close write-holds for the client-done message; R-READFIRST - the read loop is started before the work start is written; R-RELOCK - no call made inside a critical section takes the same mutex again; R-DONEGATE also over every Add on the WaitGroup Close waits for, and no insertion replaces a pending entry; R-WG accepts a count reserved by a callee and requires its release. Decided R-SIGORDER, R-DONEGATE, R-SIGCHAN - the signal forwarder starts after the work start is written, runs are registered only on an open client, emitted signals are handed over with a way out; every send / close pair on a caller's signal channel is separated by goroutine confinement, the state mutex or the hand-over marker; every close goes with the removal of the table entry; every end of a run closes its channel. (structural necessary conditions for the absence of lost hand-overs and lost wake-ups in the client): R-ATOMIC - the running flag is cleared only " +
+		Explanation: "Decided: R-LOOPBLOCK - no channel operation in the functions the read loop runs can wait for a receiver outside the client (the blocking hand-over of emitted signals is a known finding). Decided: R-FORWARDALL - the signal forwarder leaves its loop only on a closed channel, cancellation or a failed write. Decided R-STARTGATE - a run's registration and the writing of its work start lie in one section read-locked by an RWMutex that Close write-holds for the client-done message; R-READFIRST - the read loop is started before the work start is written; R-RELOCK - no call made inside a critical section takes the same mutex again; R-DONEGATE also over every Add on the WaitGroup Close waits for, and no insertion replaces a pending entry; R-WG accepts a count reserved by a callee and requires its release. Decided R-SIGORDER, R-DONEGATE, R-SIGCHAN - the signal forwarder starts after the work start is written, runs are registered only on an open client, emitted signals are handed over with a way out; every send / close pair on a caller's signal channel is separated by goroutine confinement, the state mutex or the hand-over marker; every close goes with the removal of the table entry; every end of a run closes its channel. (structural necessary conditions for the absence of lost hand-overs and lost wake-ups in the client): R-ATOMIC - the running flag is cleared only " +
 			"in a critical section that also scans the pending table, and set in the section that tested it and starts the read loop; presence-check-then-insert on guarded " +
 			"tables happens in one critical section; R-MUSTPASS - every exit of the read loop has cleared the running flag since the last read; R-PAIR - the result store is " +
 			"followed by Signal in the same critical section and Wait is guarded by a test of the condition; R-WG - Add dominates each go whose goroutine calls Done, Done is " +
@@ -227,6 +227,7 @@ func init() {
 			func(c *Ctx) { c.ruleStartGate("R-STARTGATE") },
 			func(c *Ctx) { c.ruleReadFirst("R-READFIRST") },
 			func(c *Ctx) { c.ruleForwardAll("R-FORWARDALL") },
+			func(c *Ctx) { c.ruleLoopBlock("R-LOOPBLOCK") },
 			func(c *Ctx) { c.ruleOneDecoder("R-ONEDECODER") },
 			func(c *Ctx) { c.ruleIdleCheck("R-IDLECHECK") },
 			func(c *Ctx) { c.ruleAtomic("R-ATOMIC"); c.R.Floor("R-ATOMIC", 4) },
